@@ -1,0 +1,43 @@
+// Copyright 2025 SCION Association
+//
+// Licensed under the Apache License, Version 2.0 (the "License");
+// you may not use this file except in compliance with the License.
+// You may obtain a copy of the License at
+//
+//   http://www.apache.org/licenses/LICENSE-2.0
+//
+// Unless required by applicable law or agreed to in writing, software
+// distributed under the License is distributed on an "AS IS" BASIS,
+// WITHOUT WARRANTIES OR CONDITIONS OF ANY KIND, either express or implied.
+// See the License for the specific language governing permissions and
+// limitations under the License.
+
+//go:build verif
+
+package dispatcher
+
+import (
+	"net/netip"
+
+	"github.com/scionproto/scion/pkg/addr"
+)
+
+// This file exists only with the "verif" build tag. It exposes the packet-processing step of the shim
+// dispatcher to the external verification harness; it adds no behaviour.
+
+// VerifNewServer builds a Server that is not bound to a socket (NewServer with the dispatcher feature needs a
+// real connection to enable IP_PKTINFO); the dispatcher flag is set afterwards.
+func VerifNewServer(isDispatcher bool, svcAddrs map[addr.Addr]netip.AddrPort) *Server {
+	s := NewServer(false, svcAddrs, nil)
+	s.isDispatcher = isDispatcher
+	return s
+}
+
+// VerifProcessMsgNextHop calls processMsgNextHop.
+func (s *Server) VerifProcessMsgNextHop(
+	buf []byte,
+	underlay netip.Addr,
+	prevHop netip.AddrPort,
+) ([]byte, netip.AddrPort, error) {
+	return s.processMsgNextHop(buf, underlay, prevHop)
+}
